@@ -31,6 +31,10 @@ for t, enc in (('BUI31', ['ass_bui31', 'bui31_next', 'bui31_has_bit_p']),
 for t, enc in (('BI383', ['ass_bi383', 'bi383_next']), ('BI447', ['ass_bi447', 'bi447_next'])):
     for k in (1, 2, 3):
         OBLIGATIONS.append(ob('%s_k%d' % (t.lower(), k), t, k, units=['src/bitint.c'], enc=enc))
+    for k in (1, 2):
+        OBLIGATIONS.append(ob('%s_bitset_k%d' % (t.lower(), k), t, k, units=['src/bitint.c'], enc=enc, defs=['T_' + t, 'K=%d' % k, 'BITSET_FORM'],
+                              timeout=600, mem_gb=8, bounds='bitset representation holding %d symbolic value(s), extremes of the range included' % k,
+                              sym='%d inserted value(s), container in bitset form' % k))
     for k in (13, 15):
         OBLIGATIONS.append(ob('%s_k%d' % (t.lower(), k), t, k, units=['src/bitint.c'], enc=enc,
                               tiers=('thorough',), timeout=1800, mem_gb=12))
